@@ -146,7 +146,7 @@ func c06Check(cfg *config, t target, d *dynamicpb.Message, v *variant, seedKey s
 
 func runC0607(cfg *config, res *monitor.Result) {
 	c07 := cfg.prop == "C07"
-	ncase := 25
+	ncase := 60
 	if cfg.thorough() {
 		ncase = 400
 	}
